@@ -4,9 +4,9 @@ CONSTANTS
   NoCache = FALSE
   Cap = 0
   MaxTree = 5
-  MaxFaults = 3
+  MaxFaults = 4
   Depth = 30
-  Dialect = "memory"
+  Dialect = "postgresql"
 INIT Init
 NEXT SimNext
 INVARIANTS ExportFinished CacheSound CacheBounded FaultClasses
